@@ -16,6 +16,8 @@
 EXTENDS Naturals, Sequences, FiniteSets, TLC, Json
 
 CONSTANTS MaxLen, EmitRecords,
+          FocusLabels,      \* TRUE: only behaviours that begin with two app-label renames (label juggling:
+                            \* a label set free and taken by the other app), then anything
           AppLabelFixed     \* TRUE: RenameAppLabel rewrites references (as repaired);
                             \* FALSE: as originally found (it never does)
 
@@ -26,7 +28,8 @@ vars == <<psig, seq, deleted, psig0>>
 None == <<>>        \* no relation (the empty tuple, comparable with <<app, model>>)
 
 Apps0   == {"p", "q"}
-Models0 == { <<"p", "A">>, <<"p", "B">>, <<"q", "C">> }
+(* q also has a model called A: two apps holding a model of the same name (a relation can name either) *)
+Models0 == { <<"p", "A">>, <<"p", "B">>, <<"q", "C">>, <<"q", "A">> }
 NewModelName == "D"
 NewAppLabel  == "r"
 
@@ -48,7 +51,7 @@ Init == /\ \E ra \in RelChoice, rb \in RelChoice, rc \in RelChoice, ma \in RelCh
               psig = [a \in Apps0 |->
                         IF a = "p" THEN [m \in {"A", "B"} |->
                                            IF m = "A" THEN MkModel(ra, ma) ELSE MkModel(rb, None)]
-                        ELSE [m \in {"C"} |-> MkModel(rc, None)]]
+                        ELSE [m \in {"C", "A"} |-> IF m = "C" THEN MkModel(rc, None) ELSE MkModel(None, None)]]
         /\ seq = <<>> /\ deleted = {} /\ psig0 = psig
 
 AllModels(s) == UNION { { <<a, m>> : m \in DOMAIN s[a] } : a \in DOMAIN s }
@@ -111,13 +114,16 @@ DelApp(a) ==
 Labels == Apps0 \cup {NewAppLabel}
 Names  == {"A", "B", "C", NewModelName}
 
+Juggling == FocusLabels /\ Len(seq) < 2
 Next == /\ Len(seq) < MaxLen
-        /\ \/ \E a \in Labels, m \in Names : RenM(a, m, NewModelName)
-           \/ \E a \in Labels : RenApp(a, NewAppLabel)
-           \/ \E a \in Labels, m \in Names : RenF(a, m, "r", "s") \/ RenF(a, m, "id", "key")
-           \/ \E a \in Labels, m \in Names : DelF(a, m, "r") \/ DelF(a, m, "m")
-           \/ \E a \in Labels, m \in Names : DelM(a, m)
-           \/ \E a \in Labels : DelApp(a)
+        /\ \/ (~Juggling /\ \E a \in Labels, m \in Names : RenM(a, m, NewModelName))
+           \* to the new label, or to a label that an earlier rename has set free (the renamed app keeps
+           \* its old label as legacy_app_label: a lookup by label must prefer the app that HAS the label)
+           \/ \E a \in Labels, b \in Labels : RenApp(a, b)
+           \/ (~Juggling /\ \E a \in Labels, m \in Names : RenF(a, m, "r", "s") \/ RenF(a, m, "id", "key"))
+           \/ (~Juggling /\ \E a \in Labels, m \in Names : DelF(a, m, "r") \/ DelF(a, m, "m"))
+           \/ (~Juggling /\ \E a \in Labels, m \in Names : DelM(a, m))
+           \/ (~Juggling /\ \E a \in Labels : DelApp(a))
 
 Spec == Init /\ [][Next]_vars
 
